@@ -95,7 +95,9 @@ const STRS: [&str; 15] = [
 ];
 
 /// (name, gate) — gate = shape label closed by an open known finding
-const HOSTILE_FNS: [(&str, &str); 46] = [
+const HOSTILE_FNS: [(&str, &str); 52] = [
+    // names that merely start like a builtin
+    ("array_sum", ""), ("array_get2", ""), ("vec_sum", ""), ("ref_count", ""), ("string_join", ""), ("array_", ""),
     // look-alikes of the runtime's pure helpers (a user function stays a user function)
     ("log_to_string", ""), ("x_to_json", ""), ("to_string", ""), ("to_json", ""), ("string_length", ""), ("my_escape_string", ""),
     ("len", ""), ("append", ""), ("panic", ""), ("println", ""), ("print", ""), ("nil", ""), ("any", ""),
